@@ -14,6 +14,7 @@ from __future__ import annotations
 
 import ast
 import json
+import re
 import os
 import sys
 from fractions import Fraction
@@ -124,6 +125,12 @@ def coerce(txt, t, target):
     if t == target:
         return txt
     if t == INT and target == RAT:
+        m = re.fullmatch(r"\((\d+) : Int\)", txt)
+        if m:
+            return f"({m.group(1)} : Rat)"
+        m = re.fullmatch(r"\(-\((\d+) : Int\)\)", txt) or re.fullmatch(r"\(-(\d+) : Int\)", txt)
+        if m:
+            return f"(-{m.group(1)} : Rat)"
         return f"(({txt} : Int) : Rat)"
     if t == INT and target == OPTINT:
         return f"(some {txt})"
@@ -222,19 +229,23 @@ def tr(node, env):
         args = node.args
         if node.keywords:
             raise Untranslatable(f"keyword arguments in call {fn}")
-        if fn in ("min", "max"):
+        if fn in ("min", "max", "np.minimum", "np.maximum"):
+            base = "min" if fn in ("min", "np.minimum") else "max"
             if len(args) == 1 and isinstance(args[0], ast.Tuple):
                 args = args[0].elts
             parts = [tr(a, env) for a in args]
             t = parts[0][1]
             for _, tt in parts[1:]:
                 t = unify_num(t, tt)
+            op = base if t == INT else f"Model.r{base}"
             acc = coerce(parts[0][0], parts[0][1], t)
             for p, tp in parts[1:]:
-                acc = f"({fn} {acc} {coerce(p, tp, t)})"
+                acc = f"({op} {acc} {coerce(p, tp, t)})"
             return (acc, t)
         if fn in ("abs", "np.abs", "np.absolute") and len(args) == 1:
             a, ta = tr(args[0], env)
+            if ta == RAT:
+                return (f"(Model.rabs {a})", RAT)
             return (f"(if {a} < 0 then -{a} else {a})", ta)
         if fn == "int" and len(args) == 1:
             a, ta = tr(args[0], env)
@@ -482,7 +493,14 @@ HEADER = """/-
 GENERATED by harness/translate.py from /repo/src/libertem_blobfinder (working tree).
 Do not edit: rewritten on every run of every check.
 -/
+set_option linter.unusedVariables false
 """
+GEN_IMPORTS = {}  # gen_file -> list of modules to import
+
+
+def file_header(gen_file):
+    imps = "".join(f"import {m}\n" for m in GEN_IMPORTS.get(gen_file, []))
+    return imps + HEADER
 
 
 def generate(write=True):
@@ -511,7 +529,7 @@ def generate(write=True):
         files.setdefault(gen_file, []).append((name, txt))
     if write:
         for gen_file, frags in files.items():
-            body = HEADER + f"namespace Gen\n\n" + "\n".join(t for _, t in frags) + "\nend Gen\n"
+            body = file_header(gen_file) + "namespace Gen\n\n" + "\n".join(t for _, t in frags) + "\nend Gen\n"
             path = os.path.join(GEN_DIR, gen_file + ".lean")
             old = None
             if os.path.exists(path):
@@ -549,7 +567,7 @@ def restore_file_to_baseline(gen_file):
     with open(path) as f:
         d = json.load(f)
     order = [n for g, n, _ in FRAGMENTS if g == gen_file]
-    body = HEADER + "namespace Gen\n\n" + "\n".join(d[n] for n in order if n in d) + "\nend Gen\n"
+    body = file_header(gen_file) + "namespace Gen\n\n" + "\n".join(d[n] for n in order if n in d) + "\nend Gen\n"
     with open(os.path.join(GEN_DIR, gen_file + ".lean"), "w") as fh:
         fh.write(body)
 
